@@ -379,6 +379,7 @@ pub fn run(ctx: &Ctx) {
         }
     }
     // ---- Ed25519 -> X25519 key conversions
+    #[cfg(feature = "ed")]
     {
         let seeds: Vec<[u8; 32]> = ks.iter().cloned().take(12).collect();
         for (i, sa) in seeds.iter().enumerate() {
